@@ -182,11 +182,40 @@ class Fn:
         return None
 
 
+class FnTable(dict):
+    """Functions of a crate by path. A function of the confirmed tree that no longer exists and
+    had exactly one caller there (spec/fn_baseline.json: sole_caller) was merged into that caller
+    by hand; rules anchored at it are pointed at the caller, which now holds its statements."""
+
+    def _alias(self, path):
+        import inline
+        g = inline.sole_caller(path)
+        seen = set()
+        while g is not None and g not in seen:
+            seen.add(g)
+            if dict.__contains__(self, g):
+                return dict.__getitem__(self, g)
+            g = inline.sole_caller(g)
+        return None
+
+    def __missing__(self, path):
+        f = self._alias(path)
+        if f is None:
+            raise KeyError(path)
+        return f
+
+    def get(self, path, default=None):
+        if dict.__contains__(self, path):
+            return dict.__getitem__(self, path)
+        f = self._alias(path)
+        return default if f is None else f
+
+
 class Crate:
     def __init__(self, j):
         self.j = j
         self.name = j["crate"]
-        self.fns = {}
+        self.fns = FnTable()
         for f in j["fns"]:
             fn = Fn(f)
             # a path can in principle repeat (cfg twins never coexist); keep the first with body
